@@ -1,9 +1,72 @@
 import Drivers.Proto
-/-! Model driver for property C19 (stub: no model operations registered yet). -/
-open Lean Proto
+import St4sd.Model.Ini
+import St4sd.Gen.C19
+/-! Model driver for property C19 (legacy-format translation of one component). -/
+open Lean Proto St4sd.Ini
 
+def valOfJson (j : Json) : Except String Val :=
+  match j with
+  | Json.null => pure Val.none
+  | _ =>
+    match j.getObjVal? "s" with
+    | .ok v => do return Val.str (← v.getStr?).toList
+    | .error _ =>
+    match j.getObjVal? "b" with
+    | .ok v => do return Val.bool (← v.getBool?)
+    | .error _ =>
+    match j.getObjVal? "i" with
+    | .ok v => do return Val.int (← v.getInt?)
+    | .error _ =>
+    match j.getObjVal? "f" with
+    | .ok v => do return Val.float (← v.getStr?).toList
+    | .error _ =>
+    match j.getObjVal? "w" with
+    | .ok v => do
+      let a ← v.getArr?
+      let ws ← a.toList.mapM (·.getStr?)
+      return Val.words (ws.map String.toList)
+    | .error _ => throw "bad value"
+
+def jsonOfVal : Val → Json
+  | .none => Json.null
+  | .str s => jobj [("s", jchars s)]
+  | .bool b => jobj [("b", jbool b)]
+  | .int n => jobj [("i", jint n)]
+  | .float l => jobj [("f", jchars l)]
+  | .words ws => jobj [("w", jarr (ws.map jchars))]
+
+def pairOfJson (j : Json) : Except String (Path × Val) := do
+  let p ← getCharsList j "p"
+  let v ← j.getObjVal? "v"
+  return (p, ← valOfJson v)
+
+def jsonOfPair (pv : Path × Val) : Json := jobj [("p", jarr (pv.1.map jchars)), ("v", jsonOfVal pv.2)]
+
+def iniOfJson (j : Json) : Except String (St4sd.Str.S × St4sd.Str.S) := do
+  return ((← getStr j "k").toList, (← getStr j "t").toList)
+
+open St4sd.Gen.C19 in
 def handle (j : Json) : Except String Json := do
   let op ← getStr j "op"
-  throw s!"unknown op {op}"
+  match op with
+  | "component" =>
+    let c ← (← getArr j "opts").mapM pairOfJson
+    let ini := dumpSection dumpTable passthrough c
+    let back := parseSection parseTable knownKeys ini
+    let normed := back.map fun l => l.map fun (p, v) =>
+      match (dumpTable.find? fun e => e.path = p) with
+      | some e => (match parserFor parseTable e.key p with
+        | some pa => (p, norm pa v)
+        | none => (p, v))
+      | none => (p, v)
+    return jobj [("ini", jarr (ini.map fun (k, t) => jobj [("k", jchars k), ("t", jchars t)])),
+                 ("parsed", jopt (fun l => jarr (l.map jsonOfPair)) back),
+                 ("normed", jopt (fun l => jarr (l.map jsonOfPair)) normed)]
+  | "parse" =>
+    let ini ← (← getArr j "ini").mapM iniOfJson
+    return jobj [("parsed", jopt (fun l => jarr (l.map jsonOfPair)) (parseSection parseTable knownKeys ini))]
+  | "agree" =>
+    return jobj [("bad", jarr ((dumpTable.filter fun e => !agrees parseTable knownKeys e).map fun e => jchars e.key))]
+  | _ => throw s!"unknown op {op}"
 
 def main : IO Unit := serve handle
